@@ -44,6 +44,18 @@ def plan(tier, seed):
                         for sel in sels:
                             cfg = dict(var, cmd=sp.name, shape=list(shape_), k=k, reps=rep, pts=np_, sel=sel)
                             jobs.append(cfg)
+                            # element types and array representations: integer inputs (all, or mixed with
+                            # float ones), plain ndarrays / nomask arrays mixed with masked ones
+                            if np_ == pts[0] and (k <= 2 or tier != 'quick') and sel == 1:
+                                kk = ['i'] if k == 1 else ['i', 'if', 'fi']
+                                for kinds in kk:
+                                    jobs.append(dict(cfg, kinds=kinds))
+                                if k == 2 and rep == 'm':
+                                    for rr in ('dm', 'md', 'nm'):
+                                        jobs.append(dict(cfg, reps=rr))
+                                    if tier != 'quick':
+                                        jobs.append(dict(cfg, reps='dm', kinds='fi'))
+                                        jobs.append(dict(cfg, reps='md', kinds='if'))
     # de-duplicate
     seen, out = set(), []
     import json
@@ -82,7 +94,7 @@ def describe(tier):
                       'mpilot/libraries/eems/basic.py: Normalize* bodies the fuzzy variants delegate to',
                       'mpilot/utils.py: insure_fuzzy, make_masked'],
         'bounds': {
-            'quick': 'arrays of 2 cells (all mask placements symbolic), 1-3 inputs, 2 control points/categories, every string/boolean option, optional numbers given or omitted',
+            'quick': 'arrays of 2 cells (all mask placements symbolic), 1-3 inputs, 2 control points/categories, every string/boolean option, optional numbers given or omitted; float64 and int64 inputs (all-int and mixed for 2 inputs), masked arrays mixed with plain ndarrays / nomask arrays for 2 inputs',
             'thorough': 'arrays of <=3 cells and shape (2,2), masked / nomask / plain-ndarray inputs, 1-4 inputs (4 inputs: 1 cell), 2-3 control points',
         },
         'outside': ['IEEE-754 rounding, overflow, NaN/inf (floats are reals)', 'arrays larger than the bound', 'hard masks',
